@@ -279,6 +279,7 @@ class SimFS(object):
         self.write_events = 0
         self.fail_writes = None
         self.open_events = 0          # library open() calls on simulated paths
+        self.mtimes = {}              # name -> modification time (files have one default time unless a world says otherwise)
         self.max_open = None          # descriptor limit: open() fails with EMFILE while this many library handles are open
         self.fail_opens = None        # {k}: the k-th such open raises EMFILE / EACCES (descriptor table full, unreadable file)
         self.faults_fired = {}
@@ -353,10 +354,17 @@ class SimFS(object):
             raise FileNotFoundError(errno.ENOENT, 'No such file or directory', str(path))
         return len(self.files[name])
 
+    def getmtime(self, path):
+        name = sim_name(path)
+        if name not in self.files:
+            raise FileNotFoundError(errno.ENOENT, 'No such file or directory', str(path))
+        return float(self.mtimes.get(name, 1700000000.0))
+
     def stat(self, path):
         import stat as stat_mod
         size = self.getsize(path)
-        return os.stat_result((stat_mod.S_IFREG | 0o644, 0, 0, 1, 0, 0, size, 0, 0, 0))
+        t = int(self.getmtime(path))
+        return os.stat_result((stat_mod.S_IFREG | 0o644, 0, 0, 1, 0, 0, size, t, t, t))
 
     def stream(self, name, mode='rb'):
         """A handle created by the harness and handed to the library: caller-owned."""
